@@ -43,7 +43,7 @@ def run(prog, rep, tier='quick', config='default'):
     # the window-bound function (by shape, as in C02)
     first = None
     for f in prog.product_fns():
-        if f.name.startswith('portfolio::bookkeeping::superficial_loss::') and f.ty.get(0) == 'time::Date' and f.argc == 1 and \
+        if f.name.startswith('portfolio::bookkeeping::') and f.ty.get(0) == 'time::Date' and f.argc == 1 and \
                 [c for c in f.calls if re.search(r'time::Date::(saturating_sub|checked_sub)$|ops::Sub<time::Duration>', c.callee)]:
             first = f
     if not rep.anchor('first-day-of-window function', first):
